@@ -82,10 +82,24 @@ class Sched:
         en = []
         for name, (kind, info) in self.parked.items():
             if kind == "get":
-                en.append((name, "deliver" if info.items else "timeout"))
+                q, timeout = info
+                if q.items:
+                    en.append((name, "deliver"))
+                elif timeout is not None:
+                    en.append((name, "timeout"))
+                # else: an untimed get on an empty inbox waits until somebody sends
             elif kind == "join":
                 if info in self.finished:
                     en.append((name, "go"))
+            elif kind == "put":
+                q, block, timeout = info
+                if not q.is_full():
+                    en.append((name, "go"))
+                elif not block:
+                    en.append((name, "go"))                # put_nowait on a full queue: raises at once
+                elif timeout is not None:
+                    en.append((name, "timeout"))           # bounded wait on a full queue: the controller may let it expire
+                # else: blocked until somebody takes a message
             elif kind == "sleep":
                 en.append((name, "go"))
                 if info:                       # the harness allows a KeyboardInterrupt to be delivered at this poll
@@ -164,9 +178,30 @@ def absmsg(x):
 
 
 class CtlQueue:
+    """queue.Queue as auditok.workers may use it: unbounded or bounded, blocking / timed / non-blocking put and get."""
+
     def __init__(self, maxsize=0):
         self.items = collections.deque()
+        self.maxsize = maxsize or 0
         self.owner = SCHED
+
+    def is_full(self):
+        return self.maxsize > 0 and len(self.items) >= self.maxsize
+
+    def qsize(self):
+        return len(self.items)
+
+    def empty(self):
+        return not self.items
+
+    def full(self):
+        return self.is_full()
+
+    def put_nowait(self, x):
+        return self.put(x, block=False)
+
+    def task_done(self):
+        pass
 
     def name(self):
         return SCHED.qnames.get(id(self), "?")
@@ -174,11 +209,16 @@ class CtlQueue:
     def stale(self):
         return self.owner is not SCHED or SCHED is None or SCHED.me() is None
 
-    def put(self, x):
+    def put(self, x, block=True, timeout=None):
         if self.stale():
+            if self.is_full():
+                raise _queue.Full
             self.items.append(x)
             return
-        SCHED.point("put", self)
+        d = SCHED.point("put", (self, block, timeout))
+        if d == "timeout" or self.is_full():
+            SCHED.note(pt="full", q=self.name(), msg=absmsg(x))
+            raise _queue.Full
         self.items.append(x)
         SCHED.note(pt="put", q=self.name(), msg=absmsg(x))
 
@@ -187,7 +227,9 @@ class CtlQueue:
             if not self.items:
                 raise _queue.Empty
             return self.items.popleft()
-        d = SCHED.point("get", self)
+        if not block:
+            return self.get_nowait()
+        d = SCHED.point("get", (self, timeout))
         if d == "timeout" or not self.items:
             SCHED.note(pt="timeout", q=self.name())
             raise _queue.Empty
